@@ -1,5 +1,4 @@
 import OxiVerif.Spec.Syntax
-import OxiVerif.Model.Serializer
 import OxiVerif.Model.C21Parse
 /-!
 # Model.C21 — the content-stream emitter (`graphics/ops.rs`, `graphics/color.rs`,
@@ -25,7 +24,6 @@ Three layers, each mirroring the Rust code:
    the `TextContext` state, marked-content ids.
 -/
 namespace OxiVerif.C21
-open OxiVerif.Model (showNat hexBytesUpper)
 open OxiVerif.Spec.Syntax (isDigit allDigits digitsVal)
 
 /-! ## 1. exact floats -/
